@@ -1,5 +1,5 @@
 #!/bin/bash
-# development aid: run the quick checks named in seeded/<id>/meta.json ("checks") against every kept seeded change
+# development aid (several instances with different prefixes may run at the same time): run the quick checks named in seeded/<id>/meta.json ("checks") against every kept seeded change
 # (scratch worktree of /repo HEAD outside /repo and /verif, removed afterwards) and write seeded/RESULTS.md.
 #   seedrun.sh [id-prefix]
 export GOFLAGS=-mod=mod GOPROXY=off GOSUMDB=off GOTOOLCHAIN=local
@@ -9,20 +9,25 @@ for d in /verif/seeded/${1}*/; do
   id=$(basename $d)
   [ -f $d/patch.diff ] || continue
   wt=/tmp/wt-seedrun-$$
+  rm -rf $wt; git -C /repo worktree prune
   git -C /repo worktree add -q --detach $wt HEAD || exit 1
   if ! git -C $wt apply $d/patch.diff 2>/dev/null && ! git -C $wt apply --3way $d/patch.diff 2>/dev/null; then
     echo "| $id | patch does not apply to HEAD | |" >> $tmp; git -C /repo worktree remove --force $wt; continue
   fi
   res=""
   for c in $(python3 -c "import json;print(' '.join(json.load(open('$d/meta.json'))['checks']))"); do
-    o=$(VERIF_EVIDENCE_DIR=/tmp/mutant-evidence VERIF_REPO=$wt /verif/check $c 2>&1)
+    o=$(VERIF_FAIL_DIR=/tmp/mutant-fails-$$ VERIF_EVIDENCE_DIR=/tmp/mutant-evidence-$$ VERIF_REPO=$wt /verif/check $c 2>&1)
     sig=$(echo "$o" | grep -o "detail: VIOLATION[^:]*:: [^ ]*" | head -1 | sed 's/.*:: //')
     if echo "$o" | grep -q "^VIOLATION"; then res="$res $c: **caught** ($sig);"; elif echo "$o" | grep -q INCONCLUSIVE; then res="$res $c: inconclusive;"; else res="$res $c: quiet;"; fi
   done
   echo "| $id | $res |" | tee -a $tmp
-  rm -f /verif/replays/*/fail-*.json
+  rm -rf /tmp/mutant-fails-$$ /tmp/mutant-evidence-$$
   git -C /repo worktree remove --force $wt
 done
+if [ -n "$SEEDRUN_LINES" ]; then
+  # parallel run: only collect the table lines, the caller assembles RESULTS.md
+  cat $tmp >> $SEEDRUN_LINES; rm -f $tmp; exit 0
+fi
 if [ -n "$1" ] && [ -f $out ]; then
   # partial run: replace the lines of the re-run changes in the existing table
   python3 - $out $tmp <<'PY'
